@@ -1,7 +1,9 @@
 package props
 
 import (
+	"log/slog"
 	"net/http"
+	"os"
 	"time"
 
 	"github.com/regclient/regclient"
@@ -89,6 +91,14 @@ func (w *World) Client(extra ...regclient.Opt) *regclient.RegClient {
 	}
 	ro = append(ro, w.ExtraRegOpts...)
 	opts := []regclient.Opt{regclient.WithConfigHost(w.Hosts...), regclient.WithRegOpts(ro...)}
+	if lvl := os.Getenv("VERIF_RCLOG"); lvl != "" {
+		// debugging aid for `verif.py one`: the client's own log on stderr
+		l := slog.LevelWarn
+		if lvl == "debug" {
+			l = slog.LevelDebug
+		}
+		opts = append(opts, regclient.WithSlog(slog.New(slog.NewTextHandler(os.Stderr, &slog.HandlerOptions{Level: l}))))
+	}
 	opts = append(opts, extra...)
 	return regclient.New(opts...)
 }
